@@ -250,12 +250,12 @@ EXTRACTORS = {
     "InvalidChars": gen_invalid_chars,
 }
 
-# extended by later modules
-try:
-    from extract_more import MORE  # noqa
-    EXTRACTORS.update(MORE)
-except ImportError:
-    pass
+# every tools/extract_*.py contributes MORE = {GenFileName: function returning the file's text}
+import glob as _glob, importlib as _importlib
+sys.path.insert(0, os.path.dirname(os.path.abspath(__file__)))
+for _p in sorted(_glob.glob(os.path.join(os.path.dirname(os.path.abspath(__file__)), "extract_*.py"))):
+    _m = _importlib.import_module(os.path.basename(_p)[:-3])
+    EXTRACTORS.update(getattr(_m, "MORE", {}))
 
 
 def run(only=None):
